@@ -108,9 +108,7 @@ def truncWireOp (size : Int) (msg : Bytes) : String :=
       let idx := (m.extra.reverse.findIdx? (fun r => r.typ == 41)).map (fun i => m.extra.length - 1 - i)
       let extra' := match idx with | some i => m.extra.eraseIdx i | none => m.extra
       let opt := idx.bind (fun i => m.extra[i]?)
-      let lenf := fun (c : Option (List Bytes)) (off : Nat) (r : Sum MU.Qm MU.RRm) => match r with
-        | .inl q => let d := domainNameLen q.name off c true; (d.1 + 4, d.2)
-        | .inr rr => (Len.lenRRC off c rr).getD (0, c)
+      let lenf := Len.lenItem
       let covered := (m.answer ++ m.ns ++ m.extra).all (fun r => (Len.lenRRC 0 none r).isSome)
       if !covered then "uncovered"
       else
